@@ -538,3 +538,20 @@ func Bad_Embedded(o *Outer) int {
 	o.v = 3
 	return o.w
 }
+
+// ---- vacuity: a contradictory assumed contract must not make everything "proved"
+func liar() {}
+
+func Bad_Vacuous(a int) int {
+	liar()
+	return a + 1
+}
+
+func Bad_VacuousLoop(n int) int {
+	s := 0
+	for i := 0; i < n; i++ {
+		liar()
+		s += 3
+	}
+	return s
+}
